@@ -291,6 +291,10 @@ structure Cfg where
   point : Option RE
   speGetNumber : Option RE
   digitalNumber : Option RE
+  /-- which variant of the code: `false` = as first found (`int ± get_point_value(text)`, the digits summed as
+  `0.1 * d` in binary floating point), `true` = repaired (findings/numcjk/point-value-float.diff: `add_point_value`
+  attaches the digits in `Decimal` and converts to float once). The correspondence probes which one the tree follows. -/
+  pointFix : Bool := false
 
 def lookupS {β} (m : List (Str × β)) (k : Str) : Option β :=
   match m with
@@ -474,6 +478,41 @@ def getIntValue (c : Cfg) (s : Str) : Except Err PyN := do
   let st ← intLoop c body {}
   intEpilogue dozen pair negative st.intValue
 
+/-- the value of a digit list read as a decimal numeral -/
+def digitsVal (ds : List Nat) : Nat := ds.foldl (fun acc d => acc * 10 + d) 0
+
+/-- the map values that are plain `int` digits `0..9` (`none` as soon as one is not: `半` = 0.5) -/
+def plainDigits : List PyN → Option (List Nat)
+  | [] => some []
+  | .int v :: r => if 0 ≤ v && v ≤ 9 then (plainDigits r).map (v.toNat :: ·) else none
+  | .flt _ :: _ => none
+
+/-- `int(x)` of an `int` or of a float with `x.is_integer()` -/
+def PyN.integral : PyN → Option Int
+  | .int v => some v
+  | .flt x => if x.num % x.den == 0 then some (if x.neg then -((x.num / x.den : Nat) : Int) else ((x.num / x.den : Nat) : Int)) else none
+
+/-- `Decimal('0.' + digits)` -/
+def pointDec (ns : List Nat) : Dec := ⟨false, digitsVal ns, -(ns.length : Int)⟩
+
+/-- integer part ± the digits after the point. As first found: `int_value ± get_point_value(source)`. Repaired
+(`add_point_value`): for a non-empty run of plain digits after an integral integer part,
+`float(Decimal(int(int_value)) ± Decimal('0.' + digits))` under the context precision; otherwise the old sum. -/
+def addPoint (c : Cfg) (i : PyN) (text : Str) (neg : Bool) : Except Err PyN := do
+  let old : Except Err PyN := do
+    let f ← getPointValue c text
+    if neg then PyN.sub i f else PyN.add i f
+  if !c.pointFix then old
+  else
+    let ds ← text.mapM fun ch => ofOpt .keyError (lookupS c.zeroToNine [ch])
+    match ds.isEmpty, plainDigits ds, i.integral with
+    | false, some ns, some w =>
+      let pt := pointDec ns
+      let total := Dec.add c.p (Dec.ofInt w) (if neg then Dec.negate pt else pt)
+      let x ← ofOpt .overflow (F64.ofDec total)
+      pure (.flt x)
+    | _, _, _ => old
+
 /-- `is_digit(source)` -/
 def isDigitStr (c : Cfg) (s : Str) : Except Err Bool :=
   if blank c s then .ok false else found c c.digitNum s
@@ -486,8 +525,7 @@ def getValueFromPart (c : Cfg) (part : Str) : Except Err PyN := do
     match parts with
     | [a, b] => do
       let i ← getIntValue c a
-      let f ← getPointValue c b
-      PyN.add i f
+      addPoint c i b false
     | _ => getIntValue c part
 
 /-! ## the parse paths -/
@@ -577,8 +615,7 @@ def perValue (c : Cfg) (data text : Str) : Except Err (PyN × Str) := do
         match r with
         | [p1] => do
           let neg ← found c c.negSign p0
-          let pv ← getPointValue c p1
-          let v ← if neg then PyN.sub dv pv else PyN.add dv pv
+          let v ← addPoint c dv p1 neg
           pure (v, text)
         | _ => pure (dv, text)
 
@@ -630,8 +667,7 @@ def douParse (c : Cfg) (text : Str) : Except Err (Val × Str) := do
     | p0 :: p1 :: _ => do
       let neg ← found c c.negSign p0
       let i ← getIntValue c p0
-      let f ← getPointValue c p1
-      let v ← if neg then PyN.sub i f else PyN.add i f
+      let v ← addPoint c i p1 neg
       pure (.n v, fmt c (.n v))
     | _ => .error .indexError
 
@@ -786,5 +822,9 @@ def jaCfg : Cfg where
   point := NumCjkJa.point
   speGetNumber := NumCjkJa.speGetNumber
   digitalNumber := NumCjkJa.digitalNumber
+
+/-- the repaired variants (findings/numcjk/point-value-float.diff) -/
+def zhCfgFx : Cfg := { zhCfg with pointFix := true }
+def jaCfgFx : Cfg := { jaCfg with pointFix := true }
 
 end RTV.NumCjk
